@@ -158,37 +158,31 @@ func ParseComplexStrict[T any, R any](
 	var zero R
 	pc := getOrCreateContext(ctx...)
 
-	// Fast path: no modifiers, return input directly.
-	// Struct types always need field validation.
-	if !isNilInput(input) && len(internals.Checks) == 0 &&
-		internals.Transform == nil && internals.DefaultValue == nil &&
-		internals.PrefaultValue == nil && !internals.Optional &&
-		!internals.Nilable && !internals.NonOptional &&
-		internals.DefaultFunc == nil && expectedType != core.ZodTypeStruct {
-		return input, nil
-	}
-
-	if isNilInput(input) {
-		return parseComplexStrictNil[T, R](input, internals, expectedType, typeExtractor, ptrExtractor, validator, pc)
-	}
-
-	// Validation-only fast path (skip for struct types).
-	if len(internals.Checks) > 0 && internals.Transform == nil &&
-		internals.DefaultValue == nil && internals.PrefaultValue == nil &&
-		internals.DefaultFunc == nil && expectedType != core.ZodTypeStruct {
-		result, extracted, err := tryComplexValidationOnly[T, R](input, internals, validator, pc, typeExtractor, ptrExtractor)
-		if extracted {
-			return result, err
-		}
-	}
-
-	// Fallback to regular complex parsing.
+	// StrictParse must answer exactly what Parse answers (same verdict, value and
+	// issues), so run the regular pipeline and only adapt the result, which is a
+	// T, a *T or nil, to the static constraint type R.
 	r, err := ParseComplex[T](input, internals, expectedType, typeExtractor, ptrExtractor, validator, pc)
 	if err != nil {
 		return zero, err
 	}
+	if p, ok := r.(*T); ok {
+		if p == nil {
+			return zero, nil
+		}
+		if cr, ok := any(*p).(R); ok {
+			return cr, nil
+		}
+	}
 	if cr, ok := r.(R); ok {
 		return cr, nil
+	}
+	if r == nil {
+		return zero, nil
+	}
+	if v, ok := r.(T); ok {
+		if cr, ok := any(&v).(R); ok {
+			return cr, nil
+		}
 	}
 	return zero, issues.CreateInvalidTypeError(expectedType, r, pc)
 }
@@ -887,95 +881,6 @@ func parseComplexValue[T any](
 	}
 
 	return nil, issues.CreateInvalidTypeError(expectedType, input, ctx)
-}
-
-// parseComplexStrictNil handles nil input for ParseComplexStrict.
-func parseComplexStrictNil[T any, R any](
-	input R,
-	internals *core.ZodTypeInternals,
-	expectedType core.ZodTypeCode,
-	typeExtractor func(any) (T, bool),
-	ptrExtractor func(any) (*T, bool),
-	validator func(T, []core.ZodCheck, *core.ParseContext) (T, error),
-	pc *core.ParseContext,
-) (R, error) {
-	var zero R
-
-	if internals.Optional || internals.Nilable {
-		return input, nil
-	}
-
-	r, handled, err := processModifiersStrict[T](
-		zero, internals, expectedType,
-		func(v any) (any, error) {
-			return parseComplexValue(v, internals, expectedType, typeExtractor, ptrExtractor, validator, pc)
-		}, pc,
-	)
-	if handled {
-		if err != nil {
-			return zero, err
-		}
-		if cr, ok := r.(R); ok {
-			return cr, nil
-		}
-		return zero, issues.CreateInvalidTypeError(expectedType, r, pc)
-	}
-
-	// Prefault values: full parsing and validation.
-	if internals.PrefaultValue != nil {
-		r, err := ParseComplex[T](cloneDefaultValue(internals.PrefaultValue), internals, expectedType, typeExtractor, ptrExtractor, validator, pc)
-		if err != nil {
-			return zero, err
-		}
-		if cr, ok := r.(R); ok {
-			return cr, nil
-		}
-	}
-
-	if internals.PrefaultFunc != nil {
-		r, err := ParseComplex[T](internals.PrefaultFunc(), internals, expectedType, typeExtractor, ptrExtractor, validator, pc)
-		if err != nil {
-			return zero, err
-		}
-		if cr, ok := r.(R); ok {
-			return cr, nil
-		}
-	}
-
-	return zero, issues.CreateNonOptionalError(pc)
-}
-
-// tryComplexValidationOnly attempts validation-only fast path for complex strict parsing.
-// It returns the validated result, whether extraction succeeded, and any validation error.
-func tryComplexValidationOnly[T any, R any](
-	input R,
-	internals *core.ZodTypeInternals,
-	validator func(T, []core.ZodCheck, *core.ParseContext) (T, error),
-	pc *core.ParseContext,
-	typeExtractor func(any) (T, bool),
-	ptrExtractor func(any) (*T, bool),
-) (R, bool, error) {
-	var val T
-	var extracted bool
-
-	if p, ok := ptrExtractor(input); ok && p != nil {
-		val = *p
-		extracted = true
-	} else if v, ok := typeExtractor(input); ok {
-		val = v
-		extracted = true
-	}
-
-	if !extracted {
-		var zero R
-		return zero, false, nil
-	}
-
-	if _, err := validator(val, internals.Checks, pc); err != nil {
-		var zero R
-		return zero, true, err
-	}
-	return input, true, nil
 }
 
 // ----------------------------------------------------------------------------
